@@ -84,7 +84,6 @@ class Fragment(AbstractApplication):
         # take the payload data to fragment it
         pyld_blk = ctr.block_num(Bundle.BLOCK_NUM_PAYLOAD)
         payload_data = pyld_blk.getfieldval('btsd')
-        pyld_blk.delfieldval('btsd')
         payload_size = len(payload_data)
         LOGGER.info('Payload data size %d', payload_size)
         # maximum size of each fragment field
@@ -108,7 +107,12 @@ class Fragment(AbstractApplication):
                 if (frag_offset == 0
                     or blk.block_flags & CanonicalBlock.Flag.REPLICATE_IN_FRAGMENT
                         or blk.block_num == Bundle.BLOCK_NUM_PAYLOAD):
-                    fctr.bundle.blocks.append(blk.copy())
+                    frag_blk = blk.copy()
+                    if blk.block_num == Bundle.BLOCK_NUM_PAYLOAD:
+                        # Neither the field nor a decoded (received) payload
+                        frag_blk.remove_payload()
+                        frag_blk.setfieldval('btsd', b'')
+                    fctr.bundle.blocks.append(frag_blk)
             # ensure full size (with zero-size payload)
             fctr.reload()
             fctr.bundle.fill_fields()
